@@ -220,9 +220,16 @@ def run_driving_pipe(pipe, coroutine, name=None):
             await coroutine
         except Exception as e:
             pipe.add_exception(e)
-        # Not doing anything special about cancellation: it indicates the
-        # peer's loss of interest, so there's no use in sending anything out to
-        # someone not listening any more
+        except asyncio.CancelledError as e:
+            if asyncio.current_task().cancelling():
+                # Not doing anything special about cancellation of this task:
+                # it indicates the peer's loss of interest, so there's no use
+                # in sending anything out to someone not listening any more
+                raise
+            # Nobody cancelled this task: the coroutine produced the error
+            # on its own (eg. by awaiting something that was cancelled), and
+            # the peer is still waiting for a terminal event.
+            pipe.add_exception(e)
 
     task = asyncio.create_task(
         wrapped(),
